@@ -146,6 +146,7 @@ struct Args {
     scale: f64,
     profile: String,
     phases: String,
+    from_bytes: Option<String>,
 }
 
 fn parse_args() -> Args {
@@ -161,7 +162,8 @@ fn parse_args() -> Args {
         trace: None,
         scale: 1.0,
         profile: "checked".into(),
-        phases: "dense,free,sched,tiny".into(),
+        phases: "dense,free,sched,sched-long,tiny".into(),
+        from_bytes: None,
     };
     let mut it = std::env::args().skip(1);
     while let Some(x) = it.next() {
@@ -181,6 +183,7 @@ fn parse_args() -> Args {
             "--scale" => a.scale = it.next().expect("scale").parse().expect("float"),
             "--profile" => a.profile = it.next().expect("profile"),
             "--phases" => a.phases = it.next().expect("phases"),
+            "--from-bytes" => a.from_bytes = it.next(),
             s if !s.starts_with("--") && a.id.is_empty() => a.id = s.to_string(),
             s => {
                 eprintln!("unknown argument {s}");
@@ -291,12 +294,25 @@ fn main() {
         eprintln!("unknown property {}", args.id);
         std::process::exit(2);
     };
+    // ---- a libFuzzer artifact (raw bytes): decode it into a case, save it as a replay file, then replay that
+    let mut args = args;
+    if let Some(bytes_path) = args.from_bytes.clone() {
+        let data = std::fs::read(&bytes_path).expect("artifact readable");
+        let profile = vharness::fuzz::profile_of(def.id).expect("property has a fuzz target");
+        let case = (def.adjust)(vharness::bytes::decode(&data, profile));
+        let dir = format!("{}/{}", args.replay_dir, def.id);
+        let _ = std::fs::create_dir_all(&dir);
+        let path = format!("{}/fuzz-{:016x}.json", dir, case.hash64());
+        let body = json!({"property": def.id, "message": format!("decoded from libFuzzer artifact {bytes_path}"), "signature": "fuzz-artifact", "phase": "libfuzzer", "profile": "fuzz", "case": serde_json::to_value(&case).unwrap()});
+        std::fs::write(&path, serde_json::to_string_pretty(&body).unwrap()).expect("replay written");
+        println!("decoded artifact into {path}");
+        args.replay = Some(path);
+    }
     let ctx = Ctx {
         def,
         stats: RefCell::new(Stats::new()),
         trace: args.trace.clone(),
     };
-
     // ---- replay of a saved case
     if let Some(path) = &args.replay {
         let text = std::fs::read_to_string(path).expect("replay file readable");
@@ -329,7 +345,7 @@ fn main() {
     let (shard_i, shard_n) = args.shard;
 
     // ---- enumerated sub-domain
-    let dense = if args.phases.contains("dense") { (def.dense)(thorough, args.seed) } else { vec![] };
+    let dense = if args.phases.split(',').any(|p| p == "dense") { (def.dense)(thorough, args.seed) } else { vec![] };
     let dense_total = dense.len();
     for (i, case) in dense.into_iter().enumerate() {
         if (i as u32) % shard_n != shard_i {
@@ -343,10 +359,13 @@ fn main() {
 
     // ---- generated cases
     let (n_free, n_sched) = if thorough { def.thorough } else { def.quick };
-    let phases: [(&'static str, &Option<vharness::gen::GenCfg>, u32); 2] = [("free", &def.free, n_free), ("sched", &def.sched, n_sched)];
+    let long_cfg = def.long.as_ref().map(|x| x.0.clone());
+    let n_long = def.long.as_ref().map(|x| if thorough { x.2 } else { x.1 }).unwrap_or(0);
+    let phases: [(&'static str, &Option<vharness::gen::GenCfg>, u32); 3] =
+        [("free", &def.free, n_free), ("sched", &def.sched, n_sched), ("sched-long", &long_cfg, n_long)];
     for (phase, cfg, n) in phases {
         let Some(cfg) = cfg else { continue };
-        if !args.phases.contains(phase) {
+        if !args.phases.split(',').any(|p| p == phase) {
             continue;
         }
         let tp = Instant::now();
@@ -356,7 +375,7 @@ fn main() {
         }
         let adjust = def.adjust;
         let strategy = case_strategy(cfg).prop_map(move |c| adjust(c));
-        let seed = args.seed ^ salt(def.id) ^ ((shard_i as u64) << 40) ^ if phase == "sched" { 0xABCD_0000_0000 } else { 0 } ^ if args.profile == "checked" { 0 } else { 0x77 };
+        let seed = args.seed ^ salt(def.id) ^ ((shard_i as u64) << 40) ^ if phase == "sched" { 0xABCD_0000_0000 } else if phase == "sched-long" { 0x1234_0000_0000 } else { 0 } ^ if args.profile == "checked" { 0 } else { 0x77 };
         let config = Config {
             cases: n,
             failure_persistence: None,
@@ -408,7 +427,7 @@ fn main() {
 
     // ---- exhaustive enumeration of the schedules of tiny configurations (thorough tier)
     let mut exhaustive = json!(null);
-    if thorough && args.phases.contains("tiny") {
+    if thorough && args.phases.split(',').any(|p| p == "tiny") {
         let tiny = (def.tiny)();
         let mut total_runs = 0u64;
         let mut complete = 0u64;
